@@ -118,55 +118,6 @@ impl std::fmt::Display for ParseError {
 
 impl Error for ParseError {}
 
-#[derive(Debug, Clone)]
-struct IndexedStringLine<'a> {
-    pub s: &'a str,
-    pub lineno: usize,
-    pub start_offset: usize,
-    pub end_offset: usize,
-}
-
-struct IndexedStringLineIterator<'a> {
-    source: &'a str,
-    lineno: usize,
-    byte_offset: usize,
-}
-
-impl<'a> IndexedStringLineIterator<'a> {
-    fn new(s: &'a str) -> IndexedStringLineIterator<'a> {
-        IndexedStringLineIterator {
-            source: s,
-            lineno: 0,
-            byte_offset: 0,
-        }
-    }
-}
-
-impl<'a> Iterator for IndexedStringLineIterator<'a> {
-    type Item = IndexedStringLine<'a>;
-
-    fn next(&mut self) -> Option<Self::Item> {
-        if self.byte_offset >= self.source.bytes().len() {
-            return None;
-        }
-        let next_offset = self.source[self.byte_offset..]
-            .bytes()
-            .position(|b| b == b'\n')
-            .map(|p| p + self.byte_offset)
-            .unwrap_or_else(|| self.source.bytes().len())
-            + 1;
-        let result = IndexedStringLine {
-            s: &self.source[self.byte_offset..next_offset - 1],
-            lineno: self.lineno,
-            start_offset: self.byte_offset,
-            end_offset: next_offset,
-        };
-        self.lineno += 1;
-        self.byte_offset = next_offset;
-        Some(result)
-    }
-}
-
 /// An error happened during parsing (pretty version).
 ///
 /// Converted from [`ParseError`], produces a very pretty, colored error message when printed with
@@ -183,26 +134,30 @@ impl PrettyParseError {
     ///
     /// The `source_file` parameter is used to print the error with the same format `rustc` does.
     pub fn from_parse_error(err: &ParseError, text: &str, source_file: Option<&str>) -> Self {
-        let target_line = IndexedStringLineIterator::new(text)
-            .find(|l| l.start_offset <= err.position && l.end_offset >= err.position)
-            .unwrap();
-        let character_position = target_line
-            .s
-            .char_indices()
-            .map(|(cp, _c)| cp)
-            .position(|cp| cp == err.position - target_line.start_offset)
-            .unwrap_or(0);
+        // The error position, kept inside the text and on a character boundary.
+        let mut error_offset = err.position.min(text.len());
+        while !text.is_char_boundary(error_offset) {
+            error_offset -= 1;
+        }
+        // The line containing the position: from after the previous newline to the next one.
+        let line_start = text[..error_offset].rfind('\n').map_or(0, |i| i + 1);
+        let line_end = text[error_offset..]
+            .find('\n')
+            .map_or(text.len(), |i| error_offset + i);
+        let lineno = text[..error_offset].matches('\n').count();
+        let the_line = &text[line_start..line_end];
+        let character_position = text[line_start..error_offset].chars().count();
         let position = if let Some(f) = source_file {
             format!(
                 "{}:{:?}:{:?}",
                 f,
-                target_line.lineno + 1,
+                lineno + 1,
                 character_position + 1
             )
         } else {
             format!(
                 "Line {} character {}",
-                target_line.lineno + 1,
+                lineno + 1,
                 character_position + 1
             )
         };
@@ -210,7 +165,7 @@ impl PrettyParseError {
             "{err}\n{arrow}{position}\n{pipe}\n{pipe}{the_line}\n{pipe}{caret:>caret_offset$}\n",
             err = err.specifics.to_string().bold().white(),
             position = position,
-            the_line = target_line.s.trim_end(),
+            the_line = the_line.trim_end(),
             caret = "^".bold().red(),
             caret_offset = character_position + 1,
             arrow = "--> ".bold().blue(),
